@@ -94,9 +94,12 @@ func DecodeLoudnessBaseBoxSR(hdr BoxHeader, startPos uint64, sr bits.SliceReader
 			m.Reliability = measurementSystemAndReliablity & 0x0f
 			l.Measurements = append(l.Measurements, m)
 		}
+		if sr.AccError() != nil {
+			return nil, sr.AccError()
+		}
 		b.LoudnessBases = append(b.LoudnessBases, l)
 	}
-	return b, nil
+	return b, sr.AccError()
 }
 
 // Type of LoundessBaseBox, should be tlou or alou
